@@ -25,7 +25,7 @@ CHECKS = {
     "C02": C("exploration", CORR, "Function-for-function Gallina model of fragment/node cut, resolve, slice and replace (replace_outer, two/three-way, add_range, close, prepare_slice) agrees with the implementation on every observable; the flat-token law (result tokens = old[:from] ++ inner tokens of slice ++ old[to:], size law, open depths of cuts, normalisation, validity, re-insertion gives back an equal document, failures only as ReplaceError / split surrogate pair) is evaluated in Coq on the implementation's output for all sampled (doc, range, slice) triples."),
     "C03": C("exploration", CORR, "For every applied step (primitive and emitted by every high-level operation): size delta = sum(new-old) over the map's ranges and every old token outside the ranges is found at the mapped position (mark/attr steps: same token shape), evaluated in Coq over all positions. Replace-around steps with an empty gap are a recorded upstream finding."),
     "C04": C("proof", COQ, "Theorems (coq/Properties/C04.v): the recorded steps/docs/maps of a transform stay aligned and replay exactly over ANY sequence of attempted steps, including refused ones (history_Inv, history_replay). Exact single-step undo, inverse maps and whole-history undo are evaluated in Coq on random histories of up to 12 transform operations and on primitive steps (exploration strength for those clauses)."),
-    "C05": C("exploration", CORR, "Gallina model of to_json/from_json for marks, nodes, fragments, slices and all eight step types agrees with the implementation after a real json.dumps/json.loads; round-trip equality, identical re-serialisation, identical effect and map of decoded steps, registry by stepType, no aliasing of live attribute objects (monitor) are evaluated per case."),
+    "C05": C("proof", COQ, "Theorems (coq/Properties/C05.v) over the value-level codec, for every schema with distinct type names: decoding the encoding of a mark, node, fragment, slice or any of the eight step types gives back the very same value (so: equal object, identical JSON again, identical effect and map of a decoded step on every document; every step type is dispatched by its published stepType name). Hypotheses are the shapes the library builds (declared attributes in declaration order, rank-sorted marks, non-empty text, empty-content slice = Slice.empty). The model is compared with the implementation after a real json.dumps/json.loads on every case; aliasing of live attribute objects is monitored on the implementation (outside a value model)."),
     "C06": C("proof", COQ, "Brzozowski-derivative semantics of content expressions and a bisimulation certificate checker proved sound for all expressions and automata (check_bisim_sound, check_bisim_prefix, deriv_ok). Every quick run evaluates the checker in Coq against the automaton the implementation compiled for every expression of syntax-tree size <= 3 over {a, b, group}, smaller sweeps over non-generatable and inline alphabets, and random nested expressions: for each of them the statement holds for ALL child sequences. Malformed expressions and the dead-end rule are compared with an oracle computed in Coq."),
     "C07": C("proof", COQ, "Theorems (coq/Properties/C07.v) for all schemas and nodes: valid_content, check, can_replace, can_replace_with, can_append and content_match_at answer exactly the schema's definition of validity (accepted child-type sequence + allowed marks). Correspondence on all index ranges of generated nodes, replacement sub-ranges, corrupted trees."),
     "C08": C("proof", COQ, "Theorems (coq/Properties/C08.v) for every well-formed step map, position and side: monotonicity, the documented rule (outside / inside / edges / insertions), deletion flags, recover round trip; inverted maps by normalisation. Correspondence: exhaustive maps (<=3 ranges, gaps and sizes <=2, both orientations, all positions, both sides), random larger maps, operation-built mappings; mapping composition and mirror round trips evaluated as predicates. Mirror round trip over touching ranges is a recorded upstream finding."),
@@ -35,7 +35,7 @@ CHECKS = {
     "C12": C("exploration", CORR, "Seven structure helpers: never crash, in-range results, approval implies the edit succeeds, is valid (Coq check) and preserves the leaf sequence for split/join/lift/wrap; emitted steps replay through the model. find_wrapping ignoring marks on block nodes is a recorded upstream finding."),
     "C13": C("exploration", CORR, "Pointwise token specification of add/remove mark steps and of whole add_mark/remove_mark operations (by mark, by type, all), node-mark, attribute and doc-attribute steps, evaluated in Coq on the implementation's result; steps replay through the model."),
     "C14": C("proof", COQ, "Theorems (coq/Properties/C14.v) for every schema: exact characterisation of add_to_set, rank order and duplicate-freeness preserved, every reachable set canonical, removal/membership as set operations, allowed_marks = order-preserving filter. Correspondence: all 512 exclusion matrices over three types, random configurations with groups (including names that are substrings of each other), '_', '' and attributes; compiled exclusion lists and mark sets recomputed by the model."),
-    "C15": C("exploration", CORR, "Model of fill_before (DFS with visited list), create_and_fill and find_wrapping (BFS) agrees with the implementation (exact answers) on every state of the bundled family and of generated well-founded schemas; soundness and completeness/shortest-chain are checked against independent closures computed in Coq. Unbounded recursion on first-choice cycles is a recorded upstream finding."),
+    "C15": C("proof", COQ, "Theorems (coq/Properties/C15.v) over every deterministic automaton table: fill_before proposes only generatable node types that really make the content match (to a valid end when asked); the wrapper chain find_wrapping returns really fits (first wrapper allowed, each holds the next as only child, innermost accepts the target, none leaf/with required attributes). Completeness ('nothing only if no filling / chain exists', shortest chain) and create_and_fill are evaluated per case against independent closures computed in Coq (exploration strength for those clauses). The model gives the exact answers of the implementation on every state of the bundled family and of generated well-founded schemas. Unbounded recursion on first-choice cycles is a recorded upstream finding."),
     "C16": C("exploration", CORR, "Mergeable pairs (replace steps closed on the seam in both directions, typing sequences, mark steps) on the bundled family: merge result agrees with the model, merged step succeeds whenever the pair did, yields an equal document and the same size change."),
     "C17": C("exploration", CORR, "Pairs of single steps from every high-level operation with strictly separated touched ranges: rebased steps exist, both orders succeed and give equal documents; Step.map agrees with the model. Joining replace vs mark step is a recorded upstream finding (witness in the corpus)."),
     "C18": C("exploration", CORR, "Edits with both ends inside an isolating node (isolating and table-like variants): tokens up to and including the node's open token and from its close token on are unchanged, for the replace family, lift and split; steps replay through the model. The fitter placing unfittable content after the isolating node is a recorded upstream finding."),
